@@ -314,6 +314,9 @@ def run_property(prop, tier, replay=None):
         r["floor"] = floors.get(r["rule"])
         r["decides"] = rules_doc.get(r["rule"], "")
     samples = [i.as_json() for i in insts]
+    for s_ in samples:
+        if s_["verdict"] == "VIOLATION" and s_["key"] in known:
+            s_["verdict"] = "KNOWN-FINDING"
     decided = getattr(mod, "DECIDED", "")
     not_decided = getattr(mod, "NOT_DECIDED", "")
     ev = {
@@ -347,6 +350,7 @@ def run_property(prop, tier, replay=None):
         ],
         "wall_s": round(time.time() - t0, 3),
         "violations": len(unlisted),
+        "known_findings": [i.key for i in listed],
     }
     os.makedirs(EVID, exist_ok=True)
     with open(os.path.join(EVID, f"{prop}.json"), "w") as f:
